@@ -131,6 +131,7 @@ static inline void ABTI_thread_terminate(ABTI_global *p_global,
                                          ABTI_xstream *p_local_xstream,
                                          ABTI_thread *p_thread)
 {
+    ABTI_VERIF_EVENT(60, p_thread, 0, 0);
     const ABTI_thread_type thread_type = p_thread->type;
     if (thread_type & (ABTI_THREAD_TYPE_MEM_MEMPOOL_DESC_MEMPOOL_LAZY_STACK |
                        ABTI_THREAD_TYPE_MEM_MALLOC_DESC_MEMPOOL_LAZY_STACK)) {
